@@ -259,6 +259,10 @@ def run_case(case) -> core.Outcome:
                     pass
                 if rel is None or rel > 1e-12:
                     fail("quantity-equal", f"{lhs!r} == {rhs!r} is {same}", p, A.prefix)
+        # the value a unit's quantify() hands out is shared; augmented assignment on a caller's
+        # name for it must not change what the unit means afterwards
+        shared = pu.quantify()
+        shared *= 3
         # (6) unprefixed() keeps the value and strips every prefix
         un = lhs.unprefixed()
         su = _si(c, un)
